@@ -193,8 +193,43 @@ func Sel(a, i T) T { return app(elemOf(a.Sort), "select", a, i) }
 func Sto(a, i, v T) T {
 	return app(a.Sort, "store", a, i, v)
 }
-func Add(a, b T) T { return app(SInt, "+", a, b) }
-func Sub(a, b T) T { return app(SInt, "-", a, b) }
+func smallLit(t T) (int64, bool) {
+	if len(t.S) == 0 || len(t.S) > 15 {
+		return 0, false
+	}
+	var n int64
+	for _, c := range t.S {
+		if c < '0' || c > '9' {
+			return 0, false
+		}
+		n = n*10 + int64(c-'0')
+	}
+	return n, true
+}
+func Add(a, b T) T {
+	x, ok1 := smallLit(a)
+	y, ok2 := smallLit(b)
+	switch {
+	case ok1 && ok2:
+		return I(x + y)
+	case ok1 && x == 0:
+		return b
+	case ok2 && y == 0:
+		return a
+	}
+	return app(SInt, "+", a, b)
+}
+func Sub(a, b T) T {
+	x, ok1 := smallLit(a)
+	y, ok2 := smallLit(b)
+	switch {
+	case ok1 && ok2:
+		return I(x - y)
+	case ok2 && y == 0:
+		return a
+	}
+	return app(SInt, "-", a, b)
+}
 func Le(a, b T) T  { return app(SBool, "<=", a, b) }
 func Lt(a, b T) T  { return app(SBool, "<", a, b) }
 
@@ -262,12 +297,13 @@ type State struct {
 }
 
 type writeRec struct {
-	cells map[*Cell]bool
-	glob  map[string]bool
+	cells   map[*Cell]bool
+	glob    map[string]bool
+	offNon0 map[*Cell]bool // a slice value with non-literal-zero offset was written
 }
 
 func newWriteRec() *writeRec {
-	return &writeRec{cells: map[*Cell]bool{}, glob: map[string]bool{}}
+	return &writeRec{cells: map[*Cell]bool{}, glob: map[string]bool{}, offNon0: map[*Cell]bool{}}
 }
 
 func newState() *State {
@@ -289,6 +325,9 @@ func (s *State) setCell(c *Cell, v Val) {
 	s.cells[c] = v
 	if s.rec != nil {
 		s.rec.cells[c] = true
+		if sv, ok := v.(*SliceV); ok && sv.Off.S != "0" {
+			s.rec.offNon0[c] = true
+		}
 	}
 }
 
